@@ -35,10 +35,46 @@ theorem parsePostfix_stop (n : Nat) (x : Expr) (r : List Tok) (h : NoQ r) : pars
   | cons t r =>
     cases t <;> simp_all [parsePostfix, NoQ]
 
-/-- literals whose printed token is read back as the same literal -/
+/-- literals whose printed token is read back as the same literal: the text `printf("%#.15g")` gives for a finite
+real always contains a decimal point (the `#` flag) -/
 def LitWF : Lit → Prop
-  | .real g => (real2exp g).all Char.isDigit = false     -- the printed real keeps its point / exponent
+  | .real g => '.' ∈ g
   | _ => True
+
+theorem dropWhile_nil_of {α} (p : α → Bool) : ∀ l : List α, l.dropWhile p = [] → ∀ x ∈ l, p x = true := by
+  intro l
+  induction l with
+  | nil => intro _ x hx; cases hx
+  | cons a l ih =>
+    intro h x hx
+    by_cases ha : p a = true
+    · simp [List.dropWhile, ha] at h
+      rcases List.mem_cons.mp hx with rfl | hx
+      · exact ha
+      · exact ih h x hx
+    · simp [List.dropWhile, ha] at h
+
+/-- **`real2exp` keeps the decimal point**: whatever trailing zeros it removes, the spelling of a real that had a point
+still has one, so it is never an integer literal -/
+theorem real2exp_keeps_point (g : List Char) (h : '.' ∈ g) : '.' ∈ real2exp g := by
+  have hflag : ExpPrec.realDropsPoint = false := rfl
+  unfold real2exp
+  simp only []
+  split
+  · next hd =>
+    have := dropWhile_nil_of (fun c => decide (c ≠ '.')) g hd '.' h
+    simp at this
+  · next c rest hd =>
+    split
+    · exact h
+    · split
+      · simp [hflag]
+      · simp
+
+theorem real2exp_not_all_digits (g : List Char) (h : '.' ∈ g) : (real2exp g).all Char.isDigit = false := by
+  have := real2exp_keeps_point g h
+  simp only [List.all_eq_false]
+  exact ⟨'.', this, by decide⟩
 
 /-- the operator core of the expression language: literals, identifiers, two-operand operators, negation, NOT -/
 inductive Core : Expr → Prop
@@ -79,7 +115,7 @@ theorem parseUnary_lit (l : Lit) (hl : LitWF l) (n : Nat) (r : List Tok) (h : No
   have hb : ExpPrec.binaryPrintedFrom = ExpPrec.binaryStoredIn := by decide
   cases l with
   | real g =>
-    have hg : (real2exp g).all Char.isDigit = false := hl
+    have hg : (real2exp g).all Char.isDigit = false := real2exp_not_all_digits g hl
     simp only [litToks, hg]
     simp [parseUnary, parsePrimary, parsePostfix_stop _ _ _ h]
   | _ => simp_all [litToks, parseUnary, parsePrimary, parsePostfix_stop, kwLit, LitWF, unescQ_escQ]
@@ -235,7 +271,7 @@ theorem parsePrimary_lit (l : Lit) (hl : LitWF l) (n : Nat) (r : List Tok) :
   have hb : ExpPrec.binaryPrintedFrom = ExpPrec.binaryStoredIn := by decide
   cases l with
   | real g =>
-    have hg : (real2exp g).all Char.isDigit = false := hl
+    have hg : (real2exp g).all Char.isDigit = false := real2exp_not_all_digits g hl
     simp only [litToks, hg]
     simp [parsePrimary]
   | _ => simp_all [litToks, parsePrimary, kwLit, LitWF, unescQ_escQ]
